@@ -449,10 +449,12 @@ def run(prop, tier, seed, replay=None, jobs=None, keep=False):
         byid = {c["id"]: c for c in cases}
         shown = set()
         permech = {}
-        for v in new[:200]:
+        for v in new:
             key = (v["mech"], v.get("case"))
             if key in shown:
                 continue
+            if permech.get(v["mech"], 0) >= 8:
+                continue          # at most 8 replay files (3 printed) per violation mechanism, every mechanism represented
             shown.add(key)
             cid = v.get("case")
             path = os.path.join(rdir, "%s.json" % (str(cid).replace("/", "_") if cid else "global"))
@@ -468,10 +470,10 @@ def run(prop, tier, seed, replay=None, jobs=None, keep=False):
                            "cases": [byid[i] for i in grp if i in byid],
                            "violation": v, "observed": json.loads(jdump(obs.get(cid, {})))}, f, indent=1, default=_jdefault)
             permech[v["mech"]] = permech.get(v["mech"], 0) + 1
-            if permech[v["mech"]] <= 3 and len(shown) <= 40:
+            if permech[v["mech"]] <= 3 and len(permech) <= 60:
                 print("  witness: mech=%s case=%s %s" % (v["mech"], cid, _short(str(v.get("detail", "")))))
                 print("VIOLATION property=%s replay=%s" % (prop, path))
-        print("%d violation(s), %d distinct (mechanism, case)" % (len(new), len(shown)))
+        print("%d violation(s), %d distinct mechanism(s): %s" % (len(new), len(permech), ", ".join(sorted(permech))[:1500]))
         return 1
     reasons = []
     if missing and not replay:
